@@ -8,21 +8,28 @@ use std::collections::HashMap;
 
 /// objects keep *insertion* order; integers and floats are separate variants and answer only to
 /// their own accessor
+/// `V1` strips the quotes of a key greedily, the way the implementation for `Value` does; `V3` is the same
+/// type except that `get` strips exactly one enclosing pair
+pub type V1 = VX<false>;
+pub type V3 = VX<true>;
+
 #[derive(Clone, Debug, PartialEq)]
-pub enum V1 {
+pub enum VX<const ONE_PAIR: bool> {
     Null,
     Bool(bool),
     Int(i64),
+    /// an integer above i64::MAX: not an i64, so the only accessor that can show it is `as_f64`
+    UInt(u64),
     Float(f64),
     Str(String),
-    Arr(Vec<V1>),
-    Obj(Vec<(String, V1)>),
+    Arr(Vec<VX<ONE_PAIR>>),
+    Obj(Vec<(String, VX<ONE_PAIR>)>),
 }
 
 /// `Default` is a bound of the trait, not an accessor: it need not be the null value
-impl Default for V1 {
+impl<const ONE_PAIR: bool> Default for VX<ONE_PAIR> {
     fn default() -> Self {
-        V1::Str("<default>".to_string())
+        Self::Str("<default>".to_string())
     }
 }
 
@@ -39,122 +46,137 @@ fn strip_quotes(key: &str) -> &str {
     }
 }
 
-impl From<&str> for V1 {
-    fn from(s: &str) -> Self {
-        V1::Str(s.to_string())
-    }
-}
-impl From<String> for V1 {
-    fn from(s: String) -> Self {
-        V1::Str(s)
-    }
-}
-impl From<bool> for V1 {
-    fn from(b: bool) -> Self {
-        V1::Bool(b)
-    }
-}
-impl From<i64> for V1 {
-    fn from(i: i64) -> Self {
-        V1::Int(i)
-    }
-}
-impl From<f64> for V1 {
-    fn from(f: f64) -> Self {
-        V1::Float(f)
-    }
-}
-impl From<Vec<V1>> for V1 {
-    fn from(v: Vec<V1>) -> Self {
-        V1::Arr(v)
+/// the other reading of "handle enclosing single and double quotes": exactly one enclosing pair goes.
+/// For every valid query whose name does not end with the quote character it is written in, both
+/// readings give the same name.
+fn strip_one_pair(key: &str) -> &str {
+    let n = key.len();
+    if n >= 2 && (key.starts_with('\'') && key.ends_with('\'') || key.starts_with('"') && key.ends_with('"')) {
+        &key[1..n - 1]
+    } else {
+        key
     }
 }
 
-impl Queryable for V1 {
+impl<const ONE_PAIR: bool> From<&str> for VX<ONE_PAIR> {
+    fn from(s: &str) -> Self {
+        Self::Str(s.to_string())
+    }
+}
+impl<const ONE_PAIR: bool> From<String> for VX<ONE_PAIR> {
+    fn from(s: String) -> Self {
+        Self::Str(s)
+    }
+}
+impl<const ONE_PAIR: bool> From<bool> for VX<ONE_PAIR> {
+    fn from(b: bool) -> Self {
+        Self::Bool(b)
+    }
+}
+impl<const ONE_PAIR: bool> From<i64> for VX<ONE_PAIR> {
+    fn from(i: i64) -> Self {
+        Self::Int(i)
+    }
+}
+impl<const ONE_PAIR: bool> From<f64> for VX<ONE_PAIR> {
+    fn from(f: f64) -> Self {
+        Self::Float(f)
+    }
+}
+impl<const ONE_PAIR: bool> From<Vec<VX<ONE_PAIR>>> for VX<ONE_PAIR> {
+    fn from(v: Vec<VX<ONE_PAIR>>) -> Self {
+        Self::Arr(v)
+    }
+}
+
+impl<const ONE_PAIR: bool> Queryable for VX<ONE_PAIR> {
     fn get(&self, key: &str) -> Option<&Self> {
-        let key = strip_quotes(key);
+        let key = if ONE_PAIR { strip_one_pair(key) } else { strip_quotes(key) };
         match self {
-            V1::Obj(m) => m.iter().find(|(k, _)| k == key).map(|(_, v)| v),
+            Self::Obj(m) => m.iter().find(|(k, _)| k == key).map(|(_, v)| v),
             _ => None,
         }
     }
     fn as_array(&self) -> Option<&Vec<Self>> {
         match self {
-            V1::Arr(a) => Some(a),
+            Self::Arr(a) => Some(a),
             _ => None,
         }
     }
     fn as_object(&self) -> Option<Vec<(&String, &Self)>> {
         match self {
-            V1::Obj(m) => Some(m.iter().map(|(k, v)| (k, v)).collect()),
+            Self::Obj(m) => Some(m.iter().map(|(k, v)| (k, v)).collect()),
             _ => None,
         }
     }
     fn as_str(&self) -> Option<&str> {
         match self {
-            V1::Str(s) => Some(s),
+            Self::Str(s) => Some(s),
             _ => None,
         }
     }
     fn as_i64(&self) -> Option<i64> {
         match self {
-            V1::Int(i) => Some(*i),
+            Self::Int(i) => Some(*i),
             _ => None,
         }
     }
     fn as_f64(&self) -> Option<f64> {
         match self {
-            V1::Float(f) => Some(*f),
+            Self::Float(f) => Some(*f),
+            Self::UInt(u) => Some(*u as f64),
             _ => None,
         }
     }
     fn as_bool(&self) -> Option<bool> {
         match self {
-            V1::Bool(b) => Some(*b),
+            Self::Bool(b) => Some(*b),
             _ => None,
         }
     }
     fn null() -> Self {
-        V1::Null
+        Self::Null
     }
 }
-impl JsonPath for V1 {}
+impl<const ONE_PAIR: bool> JsonPath for VX<ONE_PAIR> {}
 
-impl V1 {
-    pub fn from_j(j: &J) -> V1 {
+impl<const ONE_PAIR: bool> VX<ONE_PAIR> {
+    pub fn from_j(j: &J) -> Self {
         match j {
-            J::Null => V1::Null,
-            J::Bool(b) => V1::Bool(*b),
-            J::Int(i) => V1::Int(*i),
-            J::Float(f) => V1::Float(*f),
-            J::Str(s) => V1::Str(s.clone()),
-            J::Arr(a) => V1::Arr(a.iter().map(V1::from_j).collect()),
-            J::Obj(m) => V1::Obj(m.iter().map(|(k, v)| (k.clone(), V1::from_j(v))).collect()),
+            J::Null => Self::Null,
+            J::Bool(b) => Self::Bool(*b),
+            J::Int(i) => Self::Int(*i),
+            J::UInt(u) => Self::UInt(*u),
+            J::Float(f) => Self::Float(*f),
+            J::Str(s) => Self::Str(s.clone()),
+            J::Arr(a) => Self::Arr(a.iter().map(Self::from_j).collect()),
+            J::Obj(m) => Self::Obj(m.iter().map(|(k, v)| (k.clone(), Self::from_j(v))).collect()),
         }
     }
     pub fn to_j(&self) -> J {
         match self {
-            V1::Null => J::Null,
-            V1::Bool(b) => J::Bool(*b),
-            V1::Int(i) => J::Int(*i),
-            V1::Float(f) => J::Float(*f),
-            V1::Str(s) => J::Str(s.clone()),
-            V1::Arr(a) => J::Arr(a.iter().map(|x| x.to_j()).collect()),
-            V1::Obj(m) => J::Obj(m.iter().map(|(k, v)| (k.clone(), v.to_j())).collect()),
+            Self::Null => J::Null,
+            Self::Bool(b) => J::Bool(*b),
+            Self::Int(i) => J::Int(*i),
+            Self::UInt(u) => J::UInt(*u),
+            Self::Float(f) => J::Float(*f),
+            Self::Str(s) => J::Str(s.clone()),
+            Self::Arr(a) => J::Arr(a.iter().map(|x| x.to_j()).collect()),
+            Self::Obj(m) => J::Obj(m.iter().map(|(k, v)| (k.clone(), v.to_j())).collect()),
         }
     }
     pub fn node_map(&self) -> HashMap<usize, Loc> {
-        fn go(v: &V1, cur: &mut Loc, out: &mut HashMap<usize, Loc>) {
-            out.insert(v as *const V1 as usize, cur.clone());
+        fn go<const P: bool>(v: &VX<P>, cur: &mut Loc, out: &mut HashMap<usize, Loc>) {
+            out.insert(v as *const VX<P> as usize, cur.clone());
             match v {
-                V1::Arr(a) => {
+                VX::Arr(a) => {
                     for (i, x) in a.iter().enumerate() {
                         cur.push(Step::Idx(i));
                         go(x, cur, out);
                         cur.pop();
                     }
                 }
-                V1::Obj(m) => {
+                VX::Obj(m) => {
                     for (k, x) in m {
                         cur.push(Step::Key(k.clone()));
                         go(x, cur, out);
@@ -292,6 +314,7 @@ impl V2 {
             J::Null => V2::Nil,
             J::Bool(b) => V2::B(*b),
             J::Int(i) => V2::N(*i as f64),
+            J::UInt(u) => V2::N(*u as f64),
             J::Float(f) => V2::N(*f),
             J::Str(s) => V2::S(s.clone()),
             J::Arr(a) => V2::A(a.iter().map(V2::from_j).collect()),
